@@ -859,6 +859,54 @@ Example D_two_schedules :
   end.
 Proof. vm_compute. repeat split. discriminate. Qed.
 
+(* ---- the hypotheses are satisfiable for EVERY corpus and configuration: in-order completion and the serial
+   schedule (thread 0 to the end, then thread 1, ...) are legal ---- *)
+Open Scope nat_scope.
+Definition identity_orders {X} (rounds : list (list X)) : list (list nat) := map (fun rd => seq 0 (length rd)) rounds.
+Lemma identity_orders_valid {X} (rounds : list (list X)) : valid_orders (identity_orders rounds) rounds.
+Proof. induction rounds as [|rd rounds IH]; constructor; [apply Permutation_refl|exact IH]. Qed.
+
+Lemma set_nth_app {X} : forall (done : list X) x rest v, set_nth (done ++ x :: rest) (length done) v = done ++ v :: rest.
+Proof. induction done as [|y done IH]; intros x rest v; [reflexivity|]. cbn [app length set_nth]. now rewrite IH. Qed.
+Lemma nth_error_mid {X} : forall (done : list X) x rest, nth_error (done ++ x :: rest) (length done) = Some x.
+Proof. induction done as [|y done IH]; intros x rest; [reflexivity|]. cbn [app length nth_error]. apply IH. Qed.
+
+Lemma interleave_drain : forall (s : list tok) done todo rest,
+  interleave (done ++ s :: todo) (repeat (length done) (length s) ++ rest)
+  = (s ++ fst (interleave (done ++ [] :: todo) rest), snd (interleave (done ++ [] :: todo) rest)).
+Proof.
+  induction s as [|x s IH]; intros done todo rest.
+  - cbn [length repeat app]. now destruct (interleave (done ++ [] :: todo) rest).
+  - cbn [length repeat app interleave]. rewrite nth_error_mid, set_nth_app, IH. reflexivity.
+Qed.
+
+Definition sched_from (k : nat) (todo : list (list tok)) : list nat :=
+  concat (map (fun js => repeat (fst js) (length (snd js))) (combine (seq k (length todo)) todo)).
+Lemma serial_drains : forall todo done,
+  snd (interleave (done ++ todo) (sched_from (length done) todo)) = done ++ map (fun _ => []) todo.
+Proof.
+  induction todo as [|s todo IH]; intro done; [reflexivity|].
+  unfold sched_from. cbn [length seq combine map concat fst snd]. fold (sched_from (S (length done)) todo).
+  rewrite interleave_drain. cbn [snd].
+  replace (done ++ [] :: todo) with ((done ++ [[]]) ++ todo) by now rewrite <- app_assoc.
+  replace (S (length done)) with (length (done ++ [[]])) by (rewrite app_length; cbn [length]; lia).
+  rewrite IH. now rewrite <- app_assoc.
+Qed.
+Lemma serial_sched_complete streams : complete streams (serial_sched streams) = true.
+Proof.
+  unfold complete. pose proof (serial_drains streams []) as H. cbn [app length] in H.
+  unfold sched_from in H. unfold serial_sched. rewrite H. apply forallb_forall. intros x Hx.
+  apply in_map_iff in Hx. destruct Hx as (y & <- & _). reflexivity.
+Qed.
+
+Theorem legal_run_exists tdocs bs workers : exists orders sched,
+  legal_orders bs workers orders tdocs /\ complete (streams_of bs tdocs) sched = true.
+Proof.
+  exists (identity_orders (rounds_of workers (batches_of (Nat.max 1 bs) (length tdocs) tdocs))),
+         (serial_sched (streams_of bs tdocs)).
+  split; [apply identity_orders_valid|apply serial_sched_complete].
+Qed.
+
 Print Assumptions place_round_any_order.
 Print Assumptions process_rounds_any_order.
 Print Assumptions place_round_duplicate.
@@ -872,3 +920,4 @@ Print Assumptions term_ids_irrelevant.
 Print Assumptions index_sched_is_index.
 Print Assumptions threaded_build_correct.
 Print Assumptions threaded_build_irrelevant.
+Print Assumptions legal_run_exists.
